@@ -107,6 +107,7 @@ type cell struct {
 	model   map[string]string
 	nMut    int
 	history []string // short textual history of mutating ops (for reports)
+	slab    bool     // lives in an array next to other cells: assign by value
 }
 
 type runCtx struct {
@@ -166,9 +167,20 @@ func (x *runCtx) armed(p string) bool { return x.prop == p }
 func (x *runCtx) modelOn() bool       { return x.prop != "C14" }
 
 // observe reads all metrics of an object (oracle observation, unscheduled).
+// loudObs: observations run as preemptible caller code (Plan.LoudObs).
+var loudObs bool
+
+func quietOrLoud(f func()) {
+	if loudObs {
+		f()
+		return
+	}
+	rt.Quiet(f)
+}
+
 func observe(a verAPI, p unsafe.Pointer) map[string]string {
 	m := map[string]string{}
-	rt.Quiet(func() {
+	quietOrLoud(func() {
 		for _, ms := range specs[a.Ver()].Metrics {
 			m[ms.Abv] = safeGet(a, p, ms.Abv)
 		}
@@ -369,6 +381,14 @@ func (x *runCtx) execOp(tc *taskCtx, opi int, op Op) {
 		return
 	}
 
+	// lazily observed models (Plan.LoudObs)
+	if x.modelOn() {
+		for _, cc := range []*cell{c, d} {
+			if cc != nil && cc.model == nil && (cc.spec.Mode == mPriv || cc.spec.Mode == mLock) {
+				cc.model = observe(cc.api, cc.p)
+			}
+		}
+	}
 	// O2(e): nobody changed the cells this task may look at behind its back
 	before := ""
 	if c != nil {
@@ -393,8 +413,12 @@ func (x *runCtx) execOp(tc *taskCtx, opi int, op Op) {
 		d.last = d.api.Bytes(d.p)
 		d.nMut++
 		if x.modelOn() {
+			src := c.model
+			if src == nil || c.spec.Mode == mRO || c.spec.Mode == mROHeap {
+				src = observe(c.api, c.p) // shared read-only source: never touch its model from a task
+			}
 			d.model = map[string]string{}
-			for k, v := range c.model {
+			for k, v := range src {
 				d.model[k] = v
 			}
 			x.afterMutation(tc, opi, d, op.D, "copy")
@@ -495,7 +519,11 @@ func (x *runCtx) execOp(tc *taskCtx, opi int, op Op) {
 		if out.parsed != nil && out.err == nil && d != nil {
 			// the caller keeps the object ParseVector handed out
 			if d.spec.Mode == mPriv || d.spec.Mode == mLock {
-				d.p = out.parsed
+				if d.slab {
+					d.api.Copy(d.p, out.parsed) // arr[i] = *res
+				} else {
+					d.p = out.parsed
+				}
 				d.last = d.api.Bytes(d.p)
 				d.nMut++
 				d.note("parse " + op.S)
@@ -662,7 +690,7 @@ func (x *runCtx) wellFormed(tc *taskCtx, opi int, c *cell) {
 	sp := specs[a.Ver()]
 	tc.probes.WellFormedChecks++
 	var bad string
-	rt.Quiet(func() {
+	quietOrLoud(func() {
 		defer func() {
 			if r := recover(); r != nil {
 				if rt.IsAbort(r) {
@@ -704,6 +732,22 @@ func runPlan(p *Plan, trace bool, collectCover bool) *runResult {
 	x := &runCtx{plan: p, prop: p.Prop}
 	res := &runResult{}
 	page.reset()
+	loudObs = p.LoudObs
+	// slab: adjacent storage per version
+	slabs := map[int][]unsafe.Pointer{}
+	if p.Slab {
+		count := map[int]int{}
+		for _, cs := range p.Cells {
+			if cs.Mode == mPriv || cs.Mode == mLock {
+				count[cs.Ver]++
+			}
+		}
+		for ver, n := range count {
+			if apis[ver] != nil {
+				slabs[ver] = apis[ver].NewSlab(n)
+			}
+		}
+	}
 	// arena (calm: S == nil)
 	for i, cs := range p.Cells {
 		a := apis[cs.Ver]
@@ -725,16 +769,23 @@ func runPlan(p *Plan, trace bool, collectCover bool) *runResult {
 				a.Copy(c.p, init)
 			}
 		default:
-			if init != nil {
+			if sl := slabs[cs.Ver]; len(sl) > 0 && (cs.Mode == mPriv || cs.Mode == mLock) {
+				c.p = sl[0]
+				slabs[cs.Ver] = sl[1:]
+				c.slab = true
+				if init != nil {
+					a.Copy(c.p, init)
+				}
+			} else if init != nil {
 				c.p = init
 			} else {
 				c.p = a.New()
 			}
 		}
 		c.last = a.Bytes(c.p)
-		if x.modelOn() {
+		if x.modelOn() && !p.LoudObs {
 			c.model = observe(a, c.p)
-		}
+		} // LoudObs: observed by the first task that uses the cell, as caller code
 		_ = i
 		x.cells = append(x.cells, c)
 	}
